@@ -349,10 +349,14 @@ namespace cnl {
             {
                 using traits = operator_overflow_traits<shift_left_op, Lhs, Rhs>;
                 // the most negative number, -1 << positive_digits, is in range
-                constexpr int max_shift = traits::positive_digits
-                                        + has_most_negative_number<typename traits::result>::value;
+                // unless the range of the result is symmetrical around zero
+                constexpr bool has_most_negative =
+                        has_most_negative_number<typename traits::result>::value;
+                constexpr int max_shift = traits::positive_digits + has_most_negative;
                 return lhs < 0 ? rhs > 0 ? rhs < max_shift
-                                                 ? (lhs >> (traits::positive_digits - rhs)) != -1
+                                                 ? has_most_negative
+                                                           ? (lhs >> (traits::positive_digits - rhs)) != -1
+                                                           : (-lhs >> (traits::positive_digits - rhs)) != 0
                                                  : true
                                          : false
                                : false;
